@@ -17,7 +17,9 @@
     exactly at the end point ± n (butt) or shifted by w/2 along the edge (square): reach √2·w/2;
   * `compute_normal_eq` and corollaries: the miter vector lies on both offset lines and has
     squared length 2/(1+v1·v2); `miter_kept_reach`: a kept miter reaches at most 2·limit·w/2;
-  * `end_sides_reach`, `bevel_front_reach`, `back_single_on_offsets`, `miter_tip_on_offsets`;
+  * `side_point_reach` (bevel/round/end side points at exactly w/2), `miter_point_on_offsets` (inner single
+    vertex and kept miter tip lie on both offset lines), `front_side_cases`, `join_sides_nofold_left/right`
+    (the branch structure of `compute_join_side_positions_fixed_width` when the join does not fold);
   * `join_triangle_contains_vertex`: the join triangle covers the join position;
   * `round_subdivision_witness` / `round_subdivision_partial`: `round(log2 n)` subdivisions give
     fewer than `n` chords for n = 5 (finding C06-round-arc-subdivision-rounded-down), never fewer than n/√2.
@@ -235,6 +237,201 @@ theorem compute_normal_eq (v1 v2 : P K) (r : K) (h1 : v1.sqLen = 1) (h2 : v2.sqL
     field_simp
     linear_combination h1
   apply P.ext' <;> simp only [] <;> rw [hden] <;> field_simp
+
+/-- the closed form of the miter vector -/
+noncomputable def miterVec (v1 v2 : P K) : P K := (perp (v1 + v2)).sdiv (1 + v1.dot v2)
+
+/-- extruding by the miter vector keeps both offset lines at distance 1: `m·perp(v1) = m·perp(v2) = 1` -/
+theorem miter_on_offsets (v1 v2 : P K) (h1 : v1.sqLen = 1) (h2 : v2.sqLen = 1) (hc : 1 + v1.dot v2 ≠ 0) :
+    (miterVec v1 v2).dot (perp v1) = 1 ∧ (miterVec v1 v2).dot (perp v2) = 1 := by
+  simp only [miterVec, geom] at h1 h2 hc ⊢
+  constructor <;> field_simp
+  · linear_combination h1
+  · linear_combination h2
+
+/-- `|m|² = 2 / (1 + v1·v2)` -/
+theorem miter_sqlen (v1 v2 : P K) (h1 : v1.sqLen = 1) (h2 : v2.sqLen = 1) (hc : 1 + v1.dot v2 ≠ 0) :
+    (miterVec v1 v2).sqLen * (1 + v1.dot v2) = 2 := by
+  simp only [miterVec, geom] at h1 h2 hc ⊢
+  field_simp
+  linear_combination h1 + h2
+
+/-- a miter the stroker keeps (`!miter_limit_is_exceeded`) reaches at most `2·limit·(w/2)` from the join -/
+theorem miter_kept_reach (m : P K) (ml hw : K) (hk : miterLimitIsExceeded m ml = false) :
+    (m.smul hw).sqLen ≤ (2 * ml * hw) * (2 * ml * hw) := by
+  have hk' : m.x * m.x + m.y * m.y ≤ ml * ml * 4 := by
+    simpa [miterLimitIsExceeded, geom] using hk
+  simp only [geom]
+  have : 0 ≤ hw * hw := mul_self_nonneg hw
+  nlinarith [mul_le_mul_of_nonneg_right hk' this]
+
+/-- the single vertex of the inner (back) side and a kept miter tip: `join ± m·(w/2)` lies on both
+offset lines of its side, i.e. at distance exactly w/2 from both segments' lines -/
+theorem miter_point_on_offsets (j v1 v2 : P K) (hw : K) (h1 : v1.sqLen = 1) (h2 : v2.sqLen = 1)
+    (hc : 1 + v1.dot v2 ≠ 0) :
+    ((j + (miterVec v1 v2).smul hw) - j).dot (perp v1) = hw ∧ ((j + (miterVec v1 v2).smul hw) - j).dot (perp v2) = hw ∧
+    ((j - (miterVec v1 v2).smul hw) - j).dot (perp v1) = -hw ∧ ((j - (miterVec v1 v2).smul hw) - j).dot (perp v2) = -hw := by
+  obtain ⟨a, b⟩ := miter_on_offsets v1 v2 h1 h2 hc
+  generalize miterVec v1 v2 = m at a b
+  simp only [geom] at a b ⊢
+  refine ⟨?_, ?_, ?_, ?_⟩
+  · linear_combination hw * a
+  · linear_combination hw * b
+  · linear_combination (-hw) * a
+  · linear_combination (-hw) * b
+
+/-- bevel / round joins, a miter beyond the limit, and both ends of every edge: the side points
+`p ± perp(t)·(w/2)` are at distance exactly w/2 from `p` -/
+theorem side_point_reach (p t : P K) (hw : K) (ht : t.sqLen = 1) :
+    ((p + (perp t).smul hw) - p).sqLen = hw * hw ∧ ((p - (perp t).smul hw) - p).sqLen = hw * hw := by
+  simp only [geom] at ht ⊢
+  constructor <;> linear_combination (hw * hw) * ht
+
+/-- what `compute_join_side_positions_fixed_width` does to the front (outer) side -/
+theorem front_side_cases (ix : Ix K) (s : Side2 K) (j fn mf : P K) (cd : K) :
+    frontSide ix .bevel false s j fn mf cd = s ∧ frontSide ix .round false s j fn mf cd = s ∧
+    frontSide ix .miter false s j fn mf cd = s ∧
+    (∀ jn, frontSide ix jn true s j fn mf cd = s.setSingle mf) ∧
+    frontSide ix .miterClip false s j fn mf cd = clipSide ix s j fn cd := by
+  simp [frontSide]
+
+/-- the result of `compute_join_side_positions_fixed_width` when the join does not fold, left turn
+(`cross ≥ 0`: the front side is the negative one) -/
+theorem join_sides_nofold_left (ix : Ix K) (t0 t1 j : P K) (l0 l1 hw ml : K) (join : Join)
+    (hx : t0.cross t1 ≥ 0)
+    (hf : foldTest ((decide (join = .miter) || decide (join = .miterClip)) && !miterLimitIsExceeded (-(computeNormal t0 t1)) ml)
+            t0 t1 (computeNormal t0 t1) ((-(computeNormal t0 t1)).smul hw) l0 l1 = false) :
+    let s := joinSidesT ix t0 t1 l0 l1 j hw ml join
+    s.pos.single = some (j + (computeNormal t0 t1).smul hw) ∧ s.foldPos = false ∧ s.foldNeg = false ∧
+    s.pos.prev = j + (perp t0).smul hw ∧ s.pos.next = j + (perp t1).smul hw ∧
+    s.neg = frontSide ix join ((decide (join = .miter) || decide (join = .miterClip)) && !miterLimitIsExceeded (-(computeNormal t0 t1)) ml)
+      ⟨j - (perp t0).smul hw, j - (perp t1).smul hw, none⟩ j (-(computeNormal t0 t1)) (j - (computeNormal t0 t1).smul hw) (ml * hw) := by
+  have hx' : (t0.cross t1 ≥ Scalar.zero) := by simpa [geom] using hx
+  simp only [joinSidesT, decide_eq_true hx', if_true, hf, Bool.false_eq_true, if_false, Side2.setSingle]
+  simp
+
+/-- right turn (`cross < 0`: the front side is the positive one) -/
+theorem join_sides_nofold_right (ix : Ix K) (t0 t1 j : P K) (l0 l1 hw ml : K) (join : Join)
+    (hx : ¬ t0.cross t1 ≥ 0)
+    (hf : foldTest ((decide (join = .miter) || decide (join = .miterClip)) && !miterLimitIsExceeded (computeNormal t0 t1) ml)
+            t0 t1 (computeNormal t0 t1) ((computeNormal t0 t1).smul hw) l0 l1 = false) :
+    let s := joinSidesT ix t0 t1 l0 l1 j hw ml join
+    s.neg.single = some (j - (computeNormal t0 t1).smul hw) ∧ s.foldPos = false ∧ s.foldNeg = false ∧
+    s.neg.prev = j - (perp t0).smul hw ∧ s.neg.next = j - (perp t1).smul hw ∧
+    s.pos = frontSide ix join ((decide (join = .miter) || decide (join = .miterClip)) && !miterLimitIsExceeded (computeNormal t0 t1) ml)
+      ⟨j + (perp t0).smul hw, j + (perp t1).smul hw, none⟩ j (computeNormal t0 t1) (j + (computeNormal t0 t1).smul hw) (ml * hw) := by
+  have hx' : ¬ (t0.cross t1 ≥ Scalar.zero) := by simpa [geom] using hx
+  simp only [joinSidesT, decide_eq_false hx', hf, Bool.false_eq_true, if_false, Side2.setSingle]
+  simp
+
+/-- the join triangle `(front.prev, back single, front.next)` of `tessellate_join` contains the join
+position (so the wedge between the two edge quads is covered), for any turn with `1 + v1·v2 > 0` -/
+theorem join_triangle_contains_vertex (j v1 v2 : P K) (hw : K) (hc : 0 < 1 + v1.dot v2) :
+    InTri j (j - (perp v1).smul hw, j + (miterVec v1 v2).smul hw, j - (perp v2).smul hw) := by
+  have h3 : 0 < 3 + v1.dot v2 := by linarith
+  refine ⟨1 / (3 + v1.dot v2), (1 + v1.dot v2) / (3 + v1.dot v2), 1 / (3 + v1.dot v2),
+    by positivity, by positivity, by positivity, ?_, ?_, ?_⟩
+  · field_simp; ring
+  · simp only [miterVec, geom] at hc h3 ⊢
+    field_simp
+    ring
+  · simp only [miterVec, geom] at hc h3 ⊢
+    field_simp
+    ring
 end normal
+
+
+/-! ### non-vacuity: concrete instances of the hypotheses -/
+
+section examples
+/-- a `Transc ℚ` whose `sqrt` is the given function (everything else is irrelevant here) -/
+@[instance_reducible] def toyTransc (sq : ℚ → ℚ) : Transc ℚ :=
+  ⟨sq, id, id, id, id, id, fun a _ => a, fun a _ => a, id, id, id, id, fun _ => 0, fun a _ => a, 0, 3, fun _ => false, fun _ => true⟩
+/-- `sqrt 16 = 4`, `sqrt (36/25) = 6/5` -/
+local instance toyT : Transc ℚ := toyTransc (fun x => if x = 16 then 4 else 6/5)
+theorem toy_sqrt (x : ℚ) : (Transc.sqrt x : ℚ) = if x = 16 then 4 else 6/5 := rfl
+
+example : InTri (bandPoint (⟨0, 0⟩ : P ℚ) ⟨4, 0⟩ ⟨0, 1⟩ (1/2) (1/2))
+      (edgeQuad ((⟨0, 0⟩ : P ℚ) - ⟨0, 1⟩ + ((⟨4, 0⟩ : P ℚ) - ⟨0, 0⟩).smul (-1/4)) ((⟨0, 0⟩ : P ℚ) + ⟨0, 1⟩ + ((⟨4, 0⟩ : P ℚ) - ⟨0, 0⟩).smul (1/4))
+        ((⟨4, 0⟩ : P ℚ) + ⟨0, 1⟩ + ((⟨4, 0⟩ : P ℚ) - ⟨0, 0⟩).smul (-1/4)) ((⟨4, 0⟩ : P ℚ) - ⟨0, 1⟩ + ((⟨4, 0⟩ : P ℚ) - ⟨0, 0⟩).smul (1/4))).1 ∨
+    InTri (bandPoint (⟨0, 0⟩ : P ℚ) ⟨4, 0⟩ ⟨0, 1⟩ (1/2) (1/2))
+      (edgeQuad ((⟨0, 0⟩ : P ℚ) - ⟨0, 1⟩ + ((⟨4, 0⟩ : P ℚ) - ⟨0, 0⟩).smul (-1/4)) ((⟨0, 0⟩ : P ℚ) + ⟨0, 1⟩ + ((⟨4, 0⟩ : P ℚ) - ⟨0, 0⟩).smul (1/4))
+        ((⟨4, 0⟩ : P ℚ) + ⟨0, 1⟩ + ((⟨4, 0⟩ : P ℚ) - ⟨0, 0⟩).smul (-1/4)) ((⟨4, 0⟩ : P ℚ) - ⟨0, 1⟩ + ((⟨4, 0⟩ : P ℚ) - ⟨0, 0⟩).smul (1/4))).2 :=
+  quad_covers_core (⟨0, 0⟩ : P ℚ) ⟨4, 0⟩ ⟨0, 1⟩ (-1/4) (1/4) (1/4) (-1/4) (1/2) (1/2)
+    (by norm_num) (by norm_num) (by norm_num) (by norm_num) (by norm_num) (by norm_num)
+
+/-- unit tangents (1,0) and (−7/25, 24/25): `|v1+v2| = 6/5`, the miter vector is (−4/3, 1) -/
+example : computeNormal (⟨1, 0⟩ : P ℚ) ⟨-7/25, 24/25⟩ = ⟨-4/3, 1⟩ := by
+  have h := compute_normal_eq (⟨1, 0⟩ : P ℚ) ⟨-7/25, 24/25⟩ (6/5)
+    (by norm_num [geom]) (by norm_num [geom]) (by norm_num [geom, toy_sqrt]) (by norm_num) (by norm_num [geom])
+    (by norm_num [geom, normalEpsilon]) (by norm_num [geom, normalEpsilon, toy_sqrt, abs_lt])
+  rw [h]; apply P.ext' <;> norm_num [geom]
+
+example : (miterVec (⟨1, 0⟩ : P ℚ) ⟨-7/25, 24/25⟩).dot (perp ⟨1, 0⟩) = 1 :=
+  (miter_on_offsets _ _ (by norm_num [geom]) (by norm_num [geom]) (by norm_num [geom])).1
+
+example : (miterVec (⟨1, 0⟩ : P ℚ) ⟨-7/25, 24/25⟩).sqLen * (1 + (⟨1, 0⟩ : P ℚ).dot ⟨-7/25, 24/25⟩) = 2 :=
+  miter_sqlen _ _ (by norm_num [geom]) (by norm_num [geom]) (by norm_num [geom])
+
+example : ((⟨-4/3, 1⟩ : P ℚ).smul (1/2)).sqLen ≤ (2 * 1 * (1/2)) * (2 * 1 * (1/2)) :=
+  miter_kept_reach _ 1 (1/2) (by simp [miterLimitIsExceeded, geom]; norm_num)
+
+example : InTri (⟨0, 0⟩ : P ℚ) ((⟨0, 0⟩ : P ℚ) - (perp ⟨1, 0⟩).smul (1/2), (⟨0, 0⟩ : P ℚ) + (miterVec ⟨1, 0⟩ ⟨0, 1⟩).smul (1/2),
+    (⟨0, 0⟩ : P ℚ) - (perp ⟨0, 1⟩).smul (1/2)) :=
+  join_triangle_contains_vertex _ _ _ _ (by norm_num [geom])
+
+/-- a butt cap on the edge (0,0) → (4,0), `w/2 = 1`: the hypotheses of `cap_side_butt` hold -/
+example : (1/100000000 : ℚ) < |(perp (normalize ((⟨4, 0⟩ : P ℚ) - ⟨0, 0⟩))).cross
+      ((⟨4, 0⟩ + (perp (normalize ((⟨4, 0⟩ : P ℚ) - ⟨0, 0⟩))).smul 1) - ⟨0, 1⟩)| := by
+  norm_num [geom, toy_sqrt, normalize, perp]
+
+example : cap_corner_reach (⟨4, 0⟩ : P ℚ) ⟨1, 0⟩ (-1) 1 (by norm_num [geom]) (by norm_num) =
+    cap_corner_reach (⟨4, 0⟩ : P ℚ) ⟨1, 0⟩ (-1) 1 (by norm_num [geom]) (by norm_num) := rfl
+
+/-- a 90 degree left turn with a bevel join does not fold: the hypotheses of `join_sides_nofold_left` hold -/
+example : (⟨1, 0⟩ : P ℚ).cross ⟨0, 1⟩ ≥ 0 ∧
+    foldTest ((decide (Join.bevel = .miter) || decide (Join.bevel = .miterClip)) && !miterLimitIsExceeded (-(computeNormal (⟨1, 0⟩ : P ℚ) ⟨0, 1⟩)) 4)
+      ⟨1, 0⟩ ⟨0, 1⟩ (computeNormal (⟨1, 0⟩ : P ℚ) ⟨0, 1⟩) ((-(computeNormal (⟨1, 0⟩ : P ℚ) ⟨0, 1⟩)).smul (1/2)) 4 4 = false := by
+  constructor
+  · norm_num [geom]
+  · simp [foldTest, geom]
+
+/-- the same turn taken the other way is a right turn -/
+example : ¬ (⟨0, 1⟩ : P ℚ).cross ⟨1, 0⟩ ≥ 0 ∧
+    foldTest ((decide (StrokeQuad.Join.round = .miter) || decide (StrokeQuad.Join.round = .miterClip)) && !miterLimitIsExceeded (computeNormal (⟨0, 1⟩ : P ℚ) ⟨1, 0⟩) 4)
+      ⟨0, 1⟩ ⟨1, 0⟩ (computeNormal (⟨0, 1⟩ : P ℚ) ⟨1, 0⟩) ((computeNormal (⟨0, 1⟩ : P ℚ) ⟨1, 0⟩).smul (1/2)) 4 4 = false := by
+  constructor
+  · norm_num [geom]
+  · simp [foldTest, geom]
+end examples
+
+/-! ### round joins and caps: the subdivision count (finding C06-round-arc-subdivision-rounded-down)
+
+`tessellate_round_join` / `tessellate_round_cap` need `n = ceil(arc / step)` chords to keep the
+flattening error within the tolerance and then subdivide `round(log2 n)` times, i.e. into
+`2^round(log2 n)` chords.  For an exact integer `n ≥ 1`, `round(log2 n) = ⌊log2(2n²)⌋ / 2`
+(no ties: `√2` is irrational); that integer function is what the two statements are about
+(the float evaluation is `Stroke.numSubdivisions`, C05; the harness computes the same predicate
+on every round/round input and the checker confirms the under-coverage on the real output). -/
+
+/-- `round(log2 n)` for an exact integer `n ≥ 1` -/
+def roundLog2 (n : Nat) : Nat := Nat.log2 (2 * n * n) / 2
+
+/-- WITNESS: 5 chords are needed, `round(log2 5) = 2` subdivisions give 4 — fewer than needed, so the
+flattening error exceeds the tolerance (the property's "up to the tolerance" fails there). -/
+theorem round_subdivision_witness : roundLog2 5 = 2 ∧ 2 ^ roundLog2 5 < 5 := by decide
+
+/-- what does hold: never fewer than `n/√2` chords (`n² < 2·(2^k)²`), i.e. the chord angle is at
+most `√2·step` and the flattening error at most about twice the tolerance. -/
+theorem round_subdivision_partial (n : Nat) : n * n < 2 * (2 ^ roundLog2 n) ^ 2 := by
+  unfold roundLog2
+  have h := Nat.lt_log2_self (n := 2 * n * n)
+  set L := Nat.log2 (2 * n * n) with hL
+  have h2 : L + 1 ≤ 2 * (L / 2) + 2 := by omega
+  have h3 : 2 ^ (L + 1) ≤ 2 ^ (2 * (L / 2) + 2) := Nat.pow_le_pow_right (by norm_num) h2
+  have h4 : 2 ^ (2 * (L / 2) + 2) = 4 * (2 ^ (L / 2)) ^ 2 := by
+    rw [pow_add, pow_mul']; ring
+  have : 2 * n * n < 4 * (2 ^ (L / 2)) ^ 2 := by omega
+  nlinarith
 
 end Lyon.C06
